@@ -25,6 +25,9 @@ codegen.py are parsed with typed holes and compared with the generic loop of pac
  (f) annotate is comment-only: the comments holes stand alone on a line and are filled
      from sourcecode_by_field_name, whose values come from textwrap.indent(..., '# ').
 Equality of values / bytes / failure sets over all inputs is not decided.
+
+Round 4: driver / block template variants (holes filled with one of a few literal texts) are each
+held to the rules; the partition rule reads what the spliced list collects.
 """
 import ast
 
